@@ -608,7 +608,9 @@ def o_line_effect(ss, tol_abs=1e-6, tol_rel=1e-5):
         n += 1
         scale = max(abs(S1[k]), abs(S2[k]), abs(V1[k]) ** 2 * abs(y[k]) * 1e-3)
         e = max(abs(S1[k] - got1[k]), abs(S2[k] - got2[k]))
-        if not e <= tol_abs + tol_rel * scale:
+        # ANDES regularises the series impedance with 1e-8 on r and on x: relative effect 1e-8 / |z| on the series admittance
+        zabs = max(abs(complex(r[k], x[k])), 1e-12)
+        if not e <= tol_abs + (tol_rel + 4e-8 / zabs) * scale:
             out.append(V('line_effect', 'Line %s has status u=%g, but the power it injects into the network equations (%.6g%+.6gj at '
                          'bus1, %.6g%+.6gj at bus2) is not that of its data with this status (%.6g%+.6gj, %.6g%+.6gj)' %
                          (L.idx.v[k], u[k], got1[k].real, got1[k].imag, got2[k].real, got2[k].imag, S1[k].real, S1[k].imag,
